@@ -23,7 +23,9 @@ from pathlib import Path
 VERIF = Path(__file__).resolve().parent.parent
 COQ = VERIF / "coq"
 REPO = Path(os.environ.get("FDAPY_REPO", "/repo"))
-EVID = VERIF / "evidence"
+# evidence describes runs against /repo's working tree only: a run against another tree (FDAPY_REPO, used by
+# tools/try_seed_wt.sh to test seeded changes in a scratch worktree) writes its record under build/ instead
+EVID = (VERIF / "evidence") if str(REPO) == "/repo" else (VERIF / "build" / "evidence_other_tree")
 REPLAYS = VERIF / "replays"
 SCRATCH = VERIF / "build" / "scratch"
 NPROC = min(16, os.cpu_count() or 4)
